@@ -56,3 +56,33 @@ package stat
 //@   ensures[completion] forall p Int :: forall e Int :: tot(gAdded, p, e) == tot(old(gAdded), p, e) + (!counted(ctx, p) ? 0 : (e == base.MetricEventComplete ? b : (e == base.MetricEventRt ? ctx.rt : (e == base.MetricEventError && ctx.err != nil ? b : 0))))
 //@   ensures[released] forall p Int :: sel(gConc, p) == sel(old(gConc), p) - (counted(ctx, p) ? 1 : 0)
 //@   modifies gAdded, gConc, ctx.rt
+
+// ---- the real in-flight gauge behind the ghost gConc: one atomic add per call
+//@ func (n *BaseStatNode) IncreaseConcurrency()
+//@   props C01, C04
+//@   requires n != nil && n.arr != nil && n.concurrency < 2147483647
+//@   ensures[plus-one] n.concurrency == old(n.concurrency) + 1
+//@   modifies n.concurrency, allfields(sbase.BucketWrap), allfields(sbase.MetricBucket), allfields(sbase.AtomicBucketWrapArray)
+
+//@ func (n *BaseStatNode) DecreaseConcurrency()
+//@   props C01, C04
+//@   requires n != nil && n.concurrency > 0 - 2147483648
+//@   ensures[minus-one] n.concurrency == old(n.concurrency) - 1
+//@   modifies n.concurrency
+
+//@ func (n *BaseStatNode) CurrentConcurrency() r
+//@   props C01, C04
+//@   requires n != nil
+//@   ensures[reads-gauge] r == n.concurrency
+//@   modifies nothing
+
+//@ func (s *ResourceNodePrepareSlot) Prepare(ctx)
+//@   props C01
+//@   requires ctx != nil && ctx.Resource != nil
+//@   ensures[binds-node-of-resource] ctx.StatNode != nil && typeis(ctx.StatNode, "*core/stat.ResourceNode") && dynptr(ctx.StatNode) == ref(resNodeMap[ctx.Resource.name]) && dynptr(ctx.StatNode) != 0
+
+// the node registry: one node per resource name, created on first use (constructor chain not under contract)
+//@ func GetOrCreateResourceNode(resource, resourceType) r
+//@   assumed
+//@   ensures r != nil && allocated(r) && resNodeMap[resource] == r && (old(resNodeMap[resource]) != nil ==> r == old(resNodeMap[resource]))
+//@   modifies mapof(resNodeMap)
